@@ -13,12 +13,12 @@ from . import nets, c07, c02
 LEVEL = "proof"
 MANIFEST = {
     "category": "proof",
-    "technique": "contract-based deductive verification of the history property by induction over contracts: invariant I(model) = (same static structure, arbitrary weights / biases, filter banks inside the invariant subspace); I => equivariant is C06/C07/C08 (they quantify over ALL parameter values and all invariant banks); the step I => I'(train_step) is discharged from (a) a gradient-path (taint) obligation on the real ConvContract code: the bank reaches arithmetic only through stop_gradient, (b) the real train_step executed on a symbolic model pytree with the assumed optimiser / Equinox contracts: bank leaves change by one common factor, static fields untouched; the epoch loop is unrolled (bounded) in C19's train-loop obligations",
+    "technique": "contract-based deductive verification of the history property by induction over contracts: invariant I(model) = (same static structure, arbitrary weights / biases, filter banks inside the invariant subspace); I => equivariant is C06/C07/C08 (they quantify over ALL parameter values and all invariant banks); the step I => I'(train_step) is discharged from (a) a gradient-path (taint) obligation on the real ConvContract code: the bank reaches arithmetic only through stop_gradient, (b) the real train_step executed on a symbolic model pytree with the assumed optimiser / Equinox contracts: bank leaves change by one common factor, static fields untouched; the epoch loop and the batch loop of ml.train are covered by loop invariants (base / step / exit through the real loop bodies, C19's train-loop obligations, re-run here)",
     "text": "Every value-path use of the invariant filter bank in the real layer code goes through jax.lax.stop_gradient (checked by a taint that only stop_gradient clears, for all bias modes, signatures and symbolic numbers of filters incl. the single-filter case), so its gradient is identically zero; the real train_step only averages gradient leaves over the device axis and applies optimiser updates: with the assumed contract 'a leaf whose gradient history is zero is updated by u(x) = c*x' (sgd, adam: c = 0; adamw / weight decay: c = -lr*wd) every filter leaf of every layer is rescaled by the same factor and stays in the invariant subspace, weights and biases stay arbitrary reals, static fields are untouched: I is preserved by every step, for every history; C06-C08 then give equivariance of every model satisfying I.",
     "note": "the optimiser update rule, eqx.filter_value_and_grad / filter_pmap / apply_updates / tree_at and XLA autodiff are ASSUMED (contract models) and backed by a bounded native stand-in (tiny model, sgd / adam / adamw, 2 epochs: uniform filter ratio, equivariance re-checked); inherits KF-C08 / KF-C07 (pseudo-scalars through normalisation become non-equivariant once the bias is trained)",
 }
 FUNCTIONS = ["ml.training.train_step", "ml.layers.ConvContract.individual_convolve (gradient path)", "ml.layers.ConvContract.__call__ (gradient path)",
-             "ml.training.train (bounded unrolling, see C19)", "models.* constructors (static structure)"]
+             "ml.training.train (loop invariants, owned by C19, re-run here)", "models.* constructors (static structure)"]
 TRUSTED = ["CPython for the concrete part", "taint propagation of the structured-array engine (every arithmetic contract-model operation checks it)", "z3",
            "ASSUMED: optimiser update contract, Equinox tree utilities, autodiff: d/d(filters) = 0 iff no value path without stop_gradient", "C06 / C07 / C08 for I => equivariant"]
 ASSUMPTIONS = ["optax sgd / adam / adamw update a zero-gradient leaf by a common multiple of itself", "eqx.apply_updates adds updates leaf-wise and leaves static fields alone",
@@ -41,6 +41,13 @@ def jobs(tier):
     sel = [c for c in cfgs if c["arch"] != "ConvBlock"][: (4 if tier == "quick" else 40)]
     for c in sel:
         out.append(("gvc.props.c09", "ob_train_step", dict(cfg=c)))
+    # dependencies: (i) the epoch / batch loops of ml.train hand every step the previous step's model and return
+    # stop_condition.best_model, which stop() only ever sets to a model it was consulted with (loop invariants + stop() contract,
+    # owned by C19) -- so the returned model is the result of finitely many train_steps from the initial one; (ii) a layer that
+    # has been through the pytree round trip of a training step still computes the same function (owned by C06 / C11)
+    from .common import dep_jobs
+    out += dep_jobs("gvc.props.c19", lambda fn, kw: fn in ("ob_train_induction", "ob_train_vallos_requires_validation") or (fn == "ob_step" and kw["rep"] == "jax0d" and kw["verbose"] == 0))
+    out += dep_jobs("gvc.props.c11", lambda fn, kw: fn == "ob_defining_sum" and kw.get("history") == "pytree" and kw.get("eqc"))
     return out
 
 
